@@ -293,6 +293,20 @@ fn pack<F: Field, EF: BasedVectorSpace<F>>(digest: &[F]) -> Vec<EF> {
     digest.chunks(d).map(|ch| EF::from_basis_coefficients_fn(|i| ch.get(i).copied().unwrap_or(F::ZERO))).collect()
 }
 
+thread_local! {
+    /// When set, `circuit_run` leaves the circuit and the traces of a successful run here (used by the C04 sweep over the
+    /// cells of the Poseidon2 table: the same circuits, proven and verified).
+    static CAPTURE: std::cell::RefCell<Option<Option<Box<dyn std::any::Any>>>> = const { std::cell::RefCell::new(None) };
+}
+
+/// Circuit and traces of the honest run of one MMCS case (KoalaBear D4, Poseidon2 W16, arity 2).
+pub fn capture_kb4(c: &Case, seed: u64) -> Option<(Circuit<BinomialExtensionField<p3_koala_bear::KoalaBear, 4>>, p3_circuit::Traces<BinomialExtensionField<p3_koala_bear::KoalaBear, 4>>)> {
+    CAPTURE.with(|s| *s.borrow_mut() = Some(None));
+    let _ = replay_case(c, seed);
+    let got = CAPTURE.with(|s| s.borrow_mut().take()).flatten()?;
+    got.downcast::<(Circuit<BinomialExtensionField<p3_koala_bear::KoalaBear, 4>>, p3_circuit::Traces<BinomialExtensionField<p3_koala_bear::KoalaBear, 4>>)>().ok().map(|b| *b)
+}
+
 pub struct CircuitOut {
     pub verdict: &'static str,
     pub err: String,
@@ -372,7 +386,14 @@ where
                 r.set_private_data(id, perm_private_data(pc, flat)).map_err(|e| format!("DRIVER set_private_data: {e:?}"))?;
             }
         }
-        let ran = r.run().map(|_| ()).map_err(|e| format!("{e:?}"));
+        let ran = r.run().map_err(|e| format!("{e:?}"));
+        let ran = ran.map(|traces| {
+            CAPTURE.with(|s| {
+                if let Some(slot) = s.borrow_mut().as_mut() {
+                    *slot = Some(Box::new(traces) as Box<dyn std::any::Any>);
+                }
+            });
+        });
         // the repository's own private-data setters (`set_fri_mmcs_private_data[_arity4]`) return an error when the
         // number of proof digests differs from the number of sibling slots of the circuit path: such a proof
         // cannot be handed to the circuit, whatever the (zero-filled) run above says
@@ -381,6 +402,16 @@ where
         }
         ran
     }));
+    // pair the captured traces with the circuit they belong to
+    CAPTURE.with(|s| {
+        if let Some(slot) = s.borrow_mut().as_mut() {
+            if let Some(b) = slot.take() {
+                if let Ok(t) = b.downcast::<p3_circuit::Traces<EF>>() {
+                    *slot = Some(Box::new((circuit, *t)) as Box<dyn std::any::Any>);
+                }
+            }
+        }
+    });
     match run {
         Ok(Ok(())) => out("satisfied", String::new(), perms, nops, ids.len()),
         Ok(Err(e)) => out("unsatisfied", e, perms, nops, ids.len()),
